@@ -295,6 +295,13 @@ func runC12(c *Ctx, r *Report) {
 			if obj := calleeObj(x); obj != nil && obj.Pkg() != nil && obj.Pkg().Path() == "strings" && obj.Name() == "Compare" {
 				return true, ""
 			}
+			// slices.CompareFunc(a, b, f): the first non-zero f(a[i], b[i]), else cmp.Compare of the lengths
+			if obj := calleeObj(x); obj != nil && obj.Pkg() != nil && obj.Pkg().Path() == "slices" && obj.Name() == "CompareFunc" && len(x.Common().Args) == 3 {
+				if f, ok := x.Common().Args[2].(*ssa.Function); ok && c.SSAFn(cmpFn) == f {
+					return true, ""
+				}
+				return false, "result of slices.CompareFunc with another element comparator than Cmp"
+			}
 			// a helper of the comparator: its own returns must be three-valued
 			if h := x.Common().StaticCallee(); h != nil && isModuleSSA(h) && h.Blocks != nil && len(seen) < 64 {
 				helpers[h] = true
@@ -328,6 +335,8 @@ func runC12(c *Ctx, r *Report) {
 				checkPair(x, "recursive Cmp")
 			} else if obj := calleeObj(x); obj != nil && obj.Pkg() != nil && obj.Pkg().Path() == "cmp" && obj.Name() == "Compare" {
 				checkPair(x, "cmp.Compare")
+			} else if obj != nil && obj.Pkg() != nil && obj.Pkg().Path() == "slices" && obj.Name() == "CompareFunc" {
+				checkPair(x, "slices.CompareFunc")
 			}
 		}
 	})
